@@ -676,6 +676,19 @@ class Execution:
                         break
 
     # ---- C09 --------------------------------------------------------------------------------------------------------
+    def _scheduler_live(self):
+        """Counter of the handlers with a live event, read from the real scheduler (None if it cannot be read)."""
+        sch = self.sch
+        try:
+            if hasattr(sch, "_minimal_valid_counter"):
+                return collections.Counter(h for q, r, h, c in sch.__getstate__()["heap_entries"]
+                                           if c >= sch._minimal_valid_counter.get(h, 0))
+            if hasattr(sch, "_times"):
+                return collections.Counter(e.event_handler for e in sch._times)
+        except Exception as e:
+            raise HarnessError("cannot read the scheduler's content: %r" % (e,))
+        return None
+
     def boundary_tie(self):
         """A cell-boundary event is pending within 4 ulp of the time of the last commit: the two events are simultaneous
         within rounding, their order is unspecified, and the occupancy (a function of the position, which is then *on*
@@ -721,6 +734,21 @@ class Execution:
                 if sum(fresh.values()) != sum(have.values()):
                     self.V("C09:count-differs", "tagger %s after %s: %d pending events, a fresh start creates %d"
                            % (tg.tag, last, sum(have.values()), sum(fresh.values())))
+        # what the scheduler really holds (read from the scheduler itself, not from the harness' record of pushes):
+        # every running handler with a finite candidate exactly once, nothing else
+        live = self._scheduler_live()
+        if live is not None:
+            for h, n in live.items():
+                if h not in self.pending or n != 1:
+                    self.V("C09:scheduler-content", "the scheduler holds %d live event(s) of %s, the activator has %s"
+                           % (n, type(h).__name__, "one running" if h in self.pending else "none running"))
+                    break
+            else:
+                for h, c in self.candidate.items():
+                    if c is not None and c[0] != math.inf and h not in live:
+                        self.V("C09:scheduler-content", "the running handler %s (candidate %r) has no live event in the "
+                               "scheduler" % (type(h).__name__, c))
+                        break
         # what the scheduler holds == what the activator handed out
         if set(self.pending) != set(self.candidate):
             self.V("C09:scheduler-differs", "handlers with a live candidate time %r differ from the activator's "
